@@ -14,6 +14,7 @@ from __future__ import annotations
 import ast
 
 from ..astutil import AnalysisError, dotted, src, walk_local, walk_ordered, calls_in
+from .. import pattern as P
 from ..rules import views
 
 BV = "cohdl/_core/_bit_vector.py"
@@ -50,8 +51,8 @@ def rule_cache(run):
         kdef = [a for a in body if isinstance(a, ast.Assign) and dotted(a.targets[0]) == key]
         ok = len(kdef) == 1 and isinstance(kdef[0].value, ast.Tuple) and [dotted(e) for e in kdef[0].value.elts] == comps
         run.ob(ok, q, file=rel, line=(kdef[0].lineno if kdef else f.node.lineno), detail="key", expected=f"{key} = ({', '.join(comps)})", found=src(kdef[0]) if kdef else "key not built in the function body")
-        look = [s for s in body if isinstance(s, ast.If) and src(s.test) == f"{key} in cls._SubTypes"]
-        ok = len(look) == 1 and isinstance(look[0].body[-1], ast.Return) and src(look[0].body[-1].value) == f"cls._SubTypes[{key}]"
+        look = [s for s in body if isinstance(s, ast.If) and P.T(s.test) == f"{key} in cls._SubTypes"]
+        ok = len(look) == 1 and isinstance(look[0].body[-1], ast.Return) and P.T(look[0].body[-1].value) == f"cls._SubTypes[{key}]"
         run.ob(ok, q, file=rel, line=(look[0].lineno if look else f.node.lineno), detail="lookup", expected=f"if {key} in cls._SubTypes: return cls._SubTypes[{key}]", found="ok" if ok else "missing/changed")
         if look and kdef:
             ok = body.index(kdef[0]) < body.index(look[0]) and look[0].lineno < st.lineno
@@ -77,7 +78,7 @@ def rule_cache(run):
     # normalisation of bool/int in _TypeQualifier happens before the key
     tq = run.idx.mod(TQ)
     f = tq.func("_TypeQualifier.__getitem__")
-    t = src(f.node)
+    t = P.T(f.node)
     ok = t.find("WrappedType = _Boolean") < t.find("type_spec = (WrappedType, direction)") and t.find("WrappedType = Integer") < t.find("type_spec = (WrappedType, direction)") and "WrappedType = _Boolean" in t
     run.ob(ok, "_TypeQualifier.__getitem__", file=tq.rel, line=f.node.lineno, detail="bool-int-normalised", expected="bool -> _Boolean and int -> Integer before the key is built", found="ok" if ok else "changed")
     run.end()
@@ -110,16 +111,16 @@ def rule_lattice(run):
     tq = run.idx.mod(TQ)
     f = tq.func("_TypeQualifier.__getitem__")
     pm = tq.parents
-    sized = [s for s in ast.walk(f.node) if isinstance(s, ast.If) and src(s.test) == "hasattr(WrappedType, '_width')"]
+    sized = [s for s in ast.walk(f.node) if isinstance(s, ast.If) and P.T(s.test) == "hasattr(WrappedType, '_width')"]
     if not sized:
         raise AnalysisError("sized-vector branch of _TypeQualifier.__getitem__ not found")
     seen = 0
     for kind in ("Unsigned", "Signed"):
-        br = [s for s in ast.walk(sized[0]) if isinstance(s, ast.If) and src(s.test) == f"issubclass(WrappedType, {kind})"]
+        br = [s for s in ast.walk(sized[0]) if isinstance(s, ast.If) and P.T(s.test) == f"issubclass(WrappedType, {kind})"]
         if not br:
             run.ob(False, "_TypeQualifier.__getitem__", file=tq.rel, line=sized[0].lineno, detail=f"{kind}[n]", expected="branch present", found="missing")
             continue
-        inner = [s for s in br[0].body if isinstance(s, ast.If) and src(s.test) == "direction is None"]
+        inner = [s for s in br[0].body if isinstance(s, ast.If) and P.T(s.test) == "direction is None"]
         if not inner:
             raise AnalysisError(f"direction split of the {kind} branch not found")
         for arm, stmts, suffix in (("no-direction", inner[0].body, ""), ("direction", inner[0].orelse, ", direction")):
@@ -131,34 +132,34 @@ def rule_lattice(run):
             seen += 1
             run.ob(bases == exp, "_TypeQualifier.__getitem__", file=tq.rel, line=tc[0].lineno, detail=f"{kind}[n].{arm}", expected=str(exp), found=str(bases))
     # plain sized BitVector and unsized Unsigned/Signed
-    t = src(f.node)
+    t = P.T(f.node)
     ok = "cls[BitVector] if direction is None else cls[BitVector, direction]" in t.replace("\n", " ").replace("  ", "")  or "parent_cls = cls[BitVector] if direction is None else cls[BitVector, direction]" in " ".join(t.split())
     run.ob(ok, "_TypeQualifier.__getitem__", file=tq.rel, line=sized[0].lineno, detail="BitVector[n]", expected="parent = cls[BitVector] (with the same direction)", found="ok" if ok else "changed")
-    uns = [s for s in ast.walk(f.node) if isinstance(s, ast.If) and src(s.test) == "WrappedType is Unsigned or WrappedType is Signed"]
-    ok = bool(uns) and "parent_cls = cls[BitVector]" in src(uns[0]) and "parent_cls = cls[BitVector, direction]" in src(uns[0])
+    uns = [s for s in ast.walk(f.node) if isinstance(s, ast.If) and P.T(s.test) == "WrappedType is Unsigned or WrappedType is Signed"]
+    ok = bool(uns) and "parent_cls = cls[BitVector]" in P.T(uns[0]) and "parent_cls = cls[BitVector, direction]" in P.T(uns[0])
     run.ob(ok, "_TypeQualifier.__getitem__", file=tq.rel, line=(uns[0].lineno if uns else f.node.lineno), detail="Unsigned|Signed", expected="parent = cls[BitVector] (with the same direction)", found="ok" if ok else "changed")
-    base = [s for s in ast.walk(f.node) if isinstance(s, ast.If) and src(s.test) == "WrappedType is BitVector"]
-    ok = bool(base) and "parent_cls = cls" in src(base[0].body[0])
+    base = [s for s in ast.walk(f.node) if isinstance(s, ast.If) and P.T(s.test) == "WrappedType is BitVector"]
+    ok = bool(base) and "parent_cls = cls" in P.T(base[0].body[0])
     run.ob(ok, "_TypeQualifier.__getitem__", file=tq.rel, line=(base[0].lineno if base else f.node.lineno), detail="BitVector", expected="parent = cls", found="ok" if ok else "changed")
-    port = [s for s in f.node.body if isinstance(s, ast.If) and src(s.test) == "issubclass(parent_cls, Port)"]
+    port = [s for s in f.node.body if isinstance(s, ast.If) and P.T(s.test) == "issubclass(parent_cls, Port)"]
     if not port:
         raise AnalysisError("port branch not found")
     tc = _type_calls(ast.Module(body=port[0].body, type_ignores=[]))
-    ok = len(tc) == 1 and [src(b) for b in tc[0].args[1].elts] == ["parent_cls", "Signal[WrappedType]"] and "'_direction': direction" in src(tc[0].args[2]) and "'_Wrapped': WrappedType" in src(tc[0].args[2])
+    ok = len(tc) == 1 and [src(b) for b in tc[0].args[1].elts] == ["parent_cls", "Signal[WrappedType]"] and "'_direction': direction" in P.T(tc[0].args[2]) and "'_Wrapped': WrappedType" in P.T(tc[0].args[2])
     run.ob(ok, "_TypeQualifier.__getitem__", file=tq.rel, line=port[0].lineno, detail="port-is-signal", expected="(parent_cls, Signal[WrappedType]) with _Wrapped and _direction", found=src(tc[0])[:120] if tc else "missing")
     tc = _type_calls(ast.Module(body=port[0].orelse, type_ignores=[]))
-    ok = len(tc) == 1 and src(tc[0].args[1]) == "(parent_cls,)" and "'_Wrapped': WrappedType" in src(tc[0].args[2])
+    ok = len(tc) == 1 and P.T(tc[0].args[1]) == "(parent_cls,)" and "'_Wrapped': WrappedType" in P.T(tc[0].args[2])
     run.ob(ok, "_TypeQualifier.__getitem__", file=tq.rel, line=port[0].lineno, detail="non-port", expected="(parent_cls,) with _Wrapped", found=src(tc[0])[:100] if tc else "missing")
     bv = run.idx.mod(BV)
     g = bv.func("_BitVector.__getitem__")
-    split = [s for s in g.node.body if isinstance(s, ast.If) and src(s.test) == "cls._SubTypes is BitVector._SubTypes"]
+    split = [s for s in g.node.body if isinstance(s, ast.If) and P.T(s.test) == "cls._SubTypes is BitVector._SubTypes"]
     if not split:
         raise AnalysisError("family split of _BitVector.__getitem__ not found")
     a = _type_calls(ast.Module(body=split[0].body, type_ignores=[]))
     b = _type_calls(ast.Module(body=split[0].orelse, type_ignores=[]))
-    ok = len(a) == 1 and src(a[0].args[1]) == "(cls,)"
+    ok = len(a) == 1 and P.T(a[0].args[1]) == "(cls,)"
     run.ob(ok, "_BitVector.__getitem__", file=bv.rel, line=split[0].lineno, detail="BitVector[n]", expected="(cls,)", found=src(a[0].args[1]) if a else "missing")
-    ok = len(b) == 1 and src(b[0].args[1]) == "(cls, BitVector[width])"
+    ok = len(b) == 1 and P.T(b[0].args[1]) == "(cls, BitVector[width])"
     run.ob(ok, "_BitVector.__getitem__", file=bv.rel, line=split[0].lineno, detail="Unsigned[n]|Signed[n]", expected="(cls, BitVector[width])", found=src(b[0].args[1]) if b else "missing")
     if seen != 4:
         raise AnalysisError("lattice extraction incomplete")
@@ -180,14 +181,14 @@ def rule_value_views(run):
             raise AnalysisError(f"BitVector.{prop}: getter/setter not found")
         g = getters[0]
         last = g.node.body[-1]
-        ok = isinstance(last, ast.Return) and src(last.value) == f"{cls}[self._width](self._value)"
+        ok = isinstance(last, ast.Return) and P.T(last.value) == f"{cls}[self._width](self._value)"
         run.ob(ok, f"BitVector.{prop}", file=bv.rel, line=g.node.lineno, detail="shares-storage", expected=f"{cls}[self._width](self._value)", found=src(last)[:70])
         s = setters[0]
-        ok = src(s.node.body[-1]) == f"self.{prop}._assign(value)"
+        ok = P.T(s.node.body[-1]) == f"self.{prop}._assign(value)"
         run.ob(ok, f"BitVector.{prop}.setter", file=bv.rel, line=s.node.lineno, detail="writes-through", expected=f"self.{prop}._assign(value)", found=src(s.node.body[-1])[:70])
     init = bv.func("BitVector.__init__")
     first = [s for s in init.node.body if isinstance(s, ast.If)]
-    ok = bool(first) and src(first[0].test) == "isinstance(val, Span)" and "self._value = val" in src(first[0].body[-1])
+    ok = bool(first) and P.T(first[0].test) == "isinstance(val, Span)" and "self._value = val" in P.T(first[0].body[-1])
     run.ob(ok, "BitVector.__init__", file=bv.rel, line=init.node.lineno, detail="adopts-span", expected="a Span argument becomes the storage itself (no copy)", found="ok" if ok else "changed")
     run.end()
 
